@@ -80,7 +80,7 @@ func VH_C01_ReadRendered() {
 	eol := []string{"\n", "\r\n", "\r"}[k%3]
 	bom := (k/3)%2 == 1
 	idxKind := (k * 5 / 3) % 3 // numeric, absent, garbage
-	blanks := 1 + (k*7/2)%3     // blank lines between cues
+	blanks := 1 + (k*7/2)%3    // blank lines between cues
 	eofBlanks := (k * 3 / 2) % 4
 	sep := []string{",", "."}[(k/2)%2]
 	nfrac := 1 + (k*2+k/6)%3
@@ -223,7 +223,7 @@ func VH_C01_WriteRead() {
 	n := 1 + choose(2)
 	corpus := vc01Corpus()
 	kc := choose(vbound("timeclasses", 24, 24)) // digit-shape class of the timestamps
-	k := kc % len(corpus)                         // which texts: every corpus entry appears as first line of the first cue
+	k := kc % len(corpus)                       // which texts: every corpus entry appears as first line of the first cue
 	s := NewSubtitles()
 	var model []vcueModel
 	for c := 0; c < n; c++ {
